@@ -29,7 +29,7 @@ Explains(r) ==
 
 Init == l = 1
 \* a record the definitions do not explain is reported and skipped, so one rejection never hides the others
-Next == l <= Len(Rec) /\ l' = l + 1 /\ (Explains(Rec[l]) \/ PrintT(<<"REJECT", l>>))
+Next == l <= Len(Rec) /\ l' = l + 1 /\ (IF Explains(Rec[l]) THEN TRUE ELSE PrintT(<<"REJECT", l>>))
 Spec == Init /\ [][Next]_l
 TraceAccepted == TLCGet("stats").diameter - 1 = Len(Rec)   \* every record was examined
 =============================================================================
